@@ -172,9 +172,15 @@ def _odd_hint(rng):
                        "A" + "f" * 40 + "@5e00000", "AA", "K+A", "1", "Ab@c"])
 
 
+_LOCLIKE = "0123456789abcdef0123456789abcdef+3+A0123456789abcdef0123456789abcdef01234567@5e000000"
+# names 0-3 are ordinary; the others are odd: '+A' in a name, names that look like (signed) block
+# locators at the start of the name or after '/', '-', '.', '_', an escaped space or a letter
 STREAM_NAMES = [".", "./dir", "./a\\040b", "./sub/dir", "./x+Ay", "./p+Aq+Ar", "./0123456789abcdef0123456789abcdef+3",
-                "./d\\134e"]
-FILE_NAMES = ["foo.txt", "bar", "a\\040b", "x+Ay", "emp\\011ty", "0123456789abcdef0123456789abcdef+3+Afoo", "z:z"]
+                "./d\\134e", "./" + _LOCLIKE, "./d/" + _LOCLIKE + "/e", "./copy-" + _LOCLIKE, "./a\\040" + _LOCLIKE,
+                "./0123456789abcdef0123456789abcdef+Afoo"]
+FILE_NAMES = ["foo.txt", "bar", "a\\040b", "x+Ay", "emp\\011ty", "0123456789abcdef0123456789abcdef+3+Afoo", "z:z",
+              _LOCLIKE, "blocks/" + _LOCLIKE + ".bin", "copy-" + _LOCLIKE, "block_" + _LOCLIKE, "a\\040" + _LOCLIKE,
+              "x." + _LOCLIKE[:34] + "+Kzzzzz+Afoo"]
 
 
 def _structure(rng, odd):
@@ -302,6 +308,8 @@ def _req_variants(rng, pdh, other_pdh):
         ("exact", pdh), ("exact", pdh), ("exact", pdh),
         ("hints", pdh + "+" + _sig(rng)), ("hints", pdh + "+K@zzzzz"), ("plus", pdh + "+"),
         ("digit", off + "+" + sz), ("size", h + "+" + str(int(sz) + 1)), ("sizeprefix", pdh + "0"),
+        ("sizeprefix", pdh + str(rng.randint(0, 99))), ("sizeprefix", pdh + str(rng.randint(0, 9)) + "+K@zzzzz"),
+        ("sizeprefix", pdh + str(rng.randint(1, 9)) + "+" + _sig(rng)), ("zerosize", h + "+0" + sz),
         ("sizecut", pdh[:-1]), ("short", h[:31] + "+" + sz), ("long", h + "0+" + sz), ("nosize", h),
         ("upper", h.upper() + "+" + sz), ("empty", ""), ("other", other_pdh),
     ]
@@ -392,7 +400,8 @@ def _manifest_pool(rng, n):
             pool.append(_tamper(rng, mt)[0])
     # malformed stream: short strings over the alphabet that matters to the two regexps
     alpha = [" ", " ", "\n", "+", "A", "+A", "0", "7", "a", "f", ":", ".", "/", "R", "-", "@", "\r", "\t",
-             "0123456789abcdef0123456789abcdef", "0123456789abcdef0123456789abcdef+", "0123456789abcdef0123456789abcde"]
+             "0123456789abcdef0123456789abcdef", "0123456789abcdef0123456789abcdef+", "0123456789abcdef0123456789abcde",
+             "0123456789abcdef0123456789abcdef+3+A1", "_", "x", ","]
     for _ in range(n // 2):
         pool.append("".join(rng.choice(alpha) for _ in range(rng.randint(0, 14))))
     pool += ["", " ", "\n", ". d41d8cd98f00b204e9800998ecf8427e+0 0:0:x\n"]
